@@ -485,6 +485,12 @@ func C12(c *core.Ctx) {
 		c.Decide(okAll && n > 0, "R12.3", "make-interest-writes-digest", p.Pos(mk.Pos()), "with parameters present every successful path stores sha256 into the digest component", "MakeInterest can succeed with ApplicationParameters without computing the ParametersSha256Digest component")
 	}
 
+	// ---- R12.6 (shared with C03 R3.4) the post-signing length fix-up keeps the header
+	// inside the buffer that replaces the wire segment
+	c.Import(C03, "R12.6", "the outer length fix-up after signing corrupts the header of a packet whose Length shrinks to a shorter encoding: the packet sent is not the packet signed", 2, func(k string) bool {
+		return strings.HasPrefix(k, "R3.4:")
+	})
+
 	// ---- R12.5 once the parameters digest has been computed, no byte of the encoded wire
 	// is written any more (only the outer header may be shrunk): signer, digest and parser
 	// must see the same bytes
